@@ -10,28 +10,38 @@
 using namespace vh;
 static const size_t GUARD = 8;
 
+static const size_t FAR = 640;  // bytes behind the guard that must stay untouched as well (a stray write whose offset
+                                 // depends on the STRING, not on the buffer size, lands there)
+
 struct Mem {
-  std::vector<unsigned char> raw;  // GUARD | n | GUARD
+  std::vector<unsigned char> raw;  // GUARD | n | GUARD | FAR
   size_t n;
-  explicit Mem(size_t n_) : raw(n_ + 2 * GUARD, 0xA5), n(n_) {
+  // mode 0: a fixed pattern; mode 1 ("dirty"): the buffer already holds the first n bytes of the value, WITHOUT a
+  // terminator - what an earlier call with a larger size, or a fixed-width record field, leaves behind
+  Mem(size_t n_, int mode, const std::string& src) : raw(n_ + 2 * GUARD + FAR, 0xA5), n(n_) {
     for (size_t i = 0; i < raw.size(); ++i) raw[i] = static_cast<unsigned char>(0xA5 ^ (i * 7 & 0x0f));
+    if (mode == 1)
+      for (size_t i = 0; i < n; ++i) raw[GUARD + i] = i < src.size() ? static_cast<unsigned char>(src[i]) : 'x';
   }
   char* dest() { return reinterpret_cast<char*>(raw.data() + GUARD); }
   std::string region() const { return hex(raw.data() + GUARD, n + GUARD); }
   std::string front() const { return hex(raw.data(), GUARD); }
+  std::string far() const { return hex(raw.data() + GUARD + n + GUARD, FAR); }
 };
 
 template <class F>
 static void one(const char* site, const std::string& src, size_t n, F call) {
-  Mem m(n);
-  std::string before = m.region(), fb = m.front();
-  bool copied = call(m.dest(), n);
-  if (!copied) {
-    std::cout << site << " " << n << " " << hex(src) << " nocopy\n";
-    return;
+  for (int mode = 0; mode < 2; ++mode) {
+    Mem m(n, mode, src);
+    std::string before = m.region(), fb = m.front(), fr = m.far();
+    bool copied = call(m.dest(), n);
+    if (!copied) {
+      std::cout << site << " " << n << " " << hex(src) << " nocopy\n";
+      continue;
+    }
+    std::cout << site << " " << n << " " << (src.empty() ? "-" : hex(src)) << " " << before << " " << m.region()
+              << (m.front() == fb ? "" : " FRONTGUARD") << (m.far() == fr ? "" : " FARGUARD") << "\n";
   }
-  std::cout << site << " " << n << " " << (src.empty() ? "-" : hex(src)) << " " << before << " " << m.region()
-            << (m.front() == fb ? "" : " FRONTGUARD") << "\n";
 }
 
 int main(int argc, char** argv) {
@@ -85,6 +95,16 @@ int main(int argc, char** argv) {
       for (size_t k = phase; u.size() + strlen(kChars[k % 4]) <= len; ++k) u += kChars[k % 4];
       while (u.size() < len) u += 'z';
       if (u != v) values.push_back(u);
+    }
+    // values that end in a line break (YAML block scalars do): "drop the final line break" style post-processing
+    if (len >= 1) {
+      std::string w = v;
+      w[len - 1] = '\n';
+      values.push_back(w);
+      if (len >= 2) {
+        w[len - 2] = '\r';
+        values.push_back(w);
+      }
     }
     for (auto& val : values) {
       api->set_property(s, "verif_prop", val.c_str());
